@@ -1,6 +1,7 @@
 """C15 - faults and early terminations are always paid for."""
 from core import *
 from rules import *
+from rules import loop_blocks
 import provtable
 from props.provspecs import SPECS
 import sends as sendsmod
@@ -55,11 +56,7 @@ def run(prog, rep, tier, cfg):
     rep.need('K10', 'repay_partial:debt-decrease-site', len(subs) == 1, 'one `fee_debt -= to_burn` expected, found %d' % len(subs), X.loc(R))
     for c in subs:
         X.arg_has('K10', 'repay_partial:decrease-is-min(unlocked,debt)', c, 1, ['C:core::cmp::min', 'C:State::get_unlocked_balance', 'F:State.fee_debt'], 'fee_debt decreases by min(unlocked balance, fee_debt)')
-    comp0, comp1 = ret_components(prog, R, 0), ret_components(prog, R, 1)
-    rep.need('K10', 'repay_partial:returns-what-it-took', bool(comp0) and all(has_all(a, ['C:core::cmp::min', 'C:State::get_unlocked_balance']) for a in comp0),
-             'component 0 of the result (amount to burn) must be the very amount taken off fee_debt', X.loc(R))
-    rep.need('K10', 'repay_partial:returns-unlocked', bool(comp1) and all(has_atom(a, 'T:State::unlock_vested_and_unvested_funds.1') for a in comp1),
-             'component 1 of the result is the total unlocked from vesting', X.loc(R))
+    repay_partial_results(prog, rep, X)
     for c in R.calls:
         if callee_is('State::get_unlocked_balance')(c):
             X.arg_has('K10', 'repay_partial:balance-arg', c, 1, ['P:4'], 'unlocked balance computed from the current balance argument', narrow=False)
@@ -221,9 +218,48 @@ def run(prog, rep, tier, cfg):
              not DT.ok_returns_from([cs[0][0].arms[cs[0][1]]], blocked={sets[0].bb}),
              'when a partition terminated sectors the deadline-level flag is set on every success path', X.loc(DT))
 
+    early_termination_drain(prog, rep, X)
     # ---- frozen provenance table of the partition / deadline / expiration-queue summaries (tables/prov_miner_partition.json)
     n = provtable.check(X, 'K10', 'summary', SPECS['miner_partition'], provtable.load_table('prov_miner_partition.json'), only_keys=[r'faulty_power', r'fee', r'^ret:', r'early'])
     rep.floor('K10', 'summary_update_sites', n, 80)
+
+def repay_partial_results(prog, rep, X, prefix=''):
+    """what repay_partial_debt_in_priority_order hands back: (amount to burn, total unlocked from vesting) - the second is what the
+    callers report to the power actor (also evaluated under C03)"""
+    R = X.fn('state::' + RPD, CR)
+    comp0, comp1 = ret_components(prog, R, 0), ret_components(prog, R, 1)
+    rep.need('K10', prefix + 'repay_partial:returns-what-it-took', bool(comp0) and all(has_all(a, ['C:core::cmp::min', 'C:State::get_unlocked_balance']) for a in comp0),
+             'component 0 of the result (amount to burn) must be the very amount taken off fee_debt', X.loc(R))
+    rep.need('K10', prefix + 'repay_partial:returns-unlocked', bool(comp1) and all(has_atom(a, 'T:State::unlock_vested_and_unvested_funds.1') for a in comp1),
+             'component 1 of the result is the total unlocked from vesting', X.loc(R))
+
+
+def early_termination_drain(prog, rep, X, prefix=''):
+    """G. a level's early-termination flag (miner -> deadline, deadline -> partition) is cleared only when the level below reported
+    that nothing is left (`more` == false); cleared earlier, the remaining terminated sectors are never processed and never
+    charged.  Also evaluated under C05 (early terminations are eventually processed)."""
+    n = 0
+    for fn_, lower in (('state::State::pop_early_terminations', 'Deadline::pop_early_terminations'), ('deadline_state::Deadline::pop_early_terminations', 'Partition::pop_early_terminations')):
+        F = X.fn(fn_, CR)
+        pops = [c for c in F.calls if callee_is(lower)(c)]
+        rep.need('K5', prefix + 'early-termination-drain:%s:lower-pop' % fn_.split('::')[-2], len(pops) == 1 and result_fate(F, pops[0]) == 'try', 'one %s(..)? per queued index' % lower, X.loc(F))
+        if len(pops) != 1:
+            continue
+        # the "finished" marks recorded after the lower level was drained (a mark made before it, for a vanished partition, is exempt)
+        marks = [c for c in F.calls if (c.callee or '').endswith('Vec::<T, A>::push') and F.dominates(pops[0].bb, c.bb) and any(a[0] == 'C' and a[1].endswith('Iterator::next') for a in prog.slicer.operand(F, c.args[1]))
+                 and not has_atom(prog.narrow.operand(F, c.args[1]), 'C:' + lower)]
+        unsets = [c for c in F.calls if callee_is('BitField::unset')(c) and has_atom(prog.narrow.operand(F, c.args[0]), 'F:%s.early_terminations' % fn_.split('::')[-2])]
+        direct = [c for c in unsets if F.dominates(pops[0].bb, c.bb) and c.bb in loop_blocks(F) and pops[0].bb in loop_blocks(F)]
+        sites = [c.bb for c in marks] + [c.bb for c in direct]
+        n += len(sites)
+        rep.need('K5', prefix + 'early-termination-drain:%s:clear-site' % fn_.split('::')[-2], len(unsets) >= 1 and len(sites) >= 1, 'the flag of a drained index is cleared (mark sites %d, unset sites %d)' % (len(sites), len(unsets)), X.loc(F))
+        if sites:
+            X.iter_guard('K6b', prefix + 'early-termination-drain:%s:only-when-nothing-left' % fn_.split('::')[-2], F, sites, m_boolatoms(['T:%s.1' % lower], False), 'index marked finished only when the lower level has no more early terminations')
+        a = ret_components(prog, F, 1)
+        rep.need('K10', prefix + 'early-termination-drain:%s:reports-more' % fn_.split('::')[-2], bool(a) and any(has_atom(x, 'F:%s.early_terminations' % fn_.split('::')[-2]) for x in a),
+                 'the "has more" result is computed from the level\'s own early-termination flags', X.loc(F))
+    rep.floor('K6b', prefix + 'early_termination_finished_marks', n, 2)
+
 
 def ret_components(prog, f, idx):
     """atoms (narrow) of component idx of every `Ok((..))` tuple returned by f"""
